@@ -11730,13 +11730,24 @@ func (p *parser) minifySwitchStmt(loc logger.Loc, s *js_ast.SSwitch, stmts []js_
 			takenIndex := -1
 
 			// Find the case that compares equal and will be taken
+			isUnknown := false
 			for i, c := range s.Cases {
-				if isEqualToTest, ok := js_ast.CheckEqualityIfNoSideEffects(s.Test.Data, c.ValueOrNil.Data, js_ast.StrictEquality); ok && isEqualToTest {
+				if c.ValueOrNil.Data == nil {
+					continue
+				}
+				isEqualToTest, ok := js_ast.CheckEqualityIfNoSideEffects(s.Test.Data, c.ValueOrNil.Data, js_ast.StrictEquality)
+				if !ok {
+					// The comparison can't be decided here (e.g. "1n" and "0x1n"), so
+					// it's not known which case is taken
+					isUnknown = true
+					break
+				}
+				if isEqualToTest {
 					takenIndex = i
 					break
 				}
 			}
-			if takenIndex == -1 {
+			if takenIndex == -1 && !isUnknown {
 				takenIndex = defaultIndex
 			}
 
